@@ -4,7 +4,7 @@ from __future__ import annotations
 import random
 
 from .. import gen, sem
-from ..snapshot import build, pg_from_json, pg_to_json, snap
+from ..snapshot import DerivationWrong, build, build_case, pg_from_json, pg_to_json, snap
 from . import c12
 
 LEVEL = "exploration"
@@ -122,7 +122,13 @@ def check_case(ctx, case):
             pg["bstereo"] = {b: d for b, d in pg["bstereo"].items() if b in double_bonds}
     else:
         pg = pg_from_json(case["pg"])
-    g = build(pg, rng=rng)
+    try:
+        g, via = build_case(pg, case.get("bseed", len(pg["atoms"]) * 7919 + len(pg["bonds"])))
+    except DerivationWrong as e:
+        ctx.violate(f"C13/derived-input-differs/{e.via}", f"deriving the input graph: {e}", case)
+        ctx.case()
+        return
+    ctx.count(f"via:{via}")
     before = snap(g)
     cls = pg["cls"]
     specified = {a: d for a, d in pg["astereo"].items() if d[2] is not None}
